@@ -42,8 +42,18 @@ RECORDS = dict(
 # further fixed-shape native answers holding sentinels: (function, shape)
 SCALARS = ["proc_num_threads", "proc_num_fds", "getpriority", "proc_cpu_num", "proc_memory_uss", "proc_num_handles"]
 _ALLFN = sorted({r[0] for v in RECORDS.values() for r in v} | set(SCALARS) | {"proc_threads", "proc_open_files", "proc_getrlimit",
-                                                                              "query_process_thread", "ppid_map"})
+                                                                              "query_process_thread", "ppid_map",
+                                                                              "proc_cmdline", "proc_args", "proc_name_and_args",
+                                                                              "proc_environ", "net_connections", "proc_net_connections",
+                                                                              "proc_memory_maps", "os.listdir", "os.readlink"})
+# natives answering with one row of heterogeneous values (strings, enums, address pairs): a base row of
+# sentinels and an alternative row; world.rowalt = {fn: i} swaps slot i for its alternative (perturbation)
+ROWFNS = ["proc_cmdline", "proc_args", "proc_name_and_args", "proc_environ", "net_connections", "proc_net_connections",
+          "proc_memory_maps"]
+# functions whose sentinels are plain ints that a test case may replace by random values
+INT_FNS = None
 BASE = {fn: 1000 + 100 * i for i, fn in enumerate(_ALLFN)}          # sentinel of slot k of fn = BASE[fn] + k
+INT_FNS = sorted({r[0] for v in RECORDS.values() for r in v} | set(SCALARS) | {"proc_threads", "proc_open_files", "ppid_map"})
 NOTTY = -1
 WIN_CONST = dict(ERROR_ACCESS_DENIED=5, ERROR_PRIVILEGE_NOT_HELD=1314, ERROR_INVALID_NAME=123,
                  ERROR_SERVICE_DOES_NOT_EXIST=1060, WINVER=0x0A00, WINDOWS_8_1=0x0603, WINDOWS_7=0x0601,
@@ -110,7 +120,7 @@ class World:
     def __init__(self):
         self.reset()
 
-    def reset(self, pid=7, state="alive", site=None, err=None, records=None, notty=False, faults=None):
+    def reset(self, pid=7, state="alive", site=None, err=None, records=None, notty=False, faults=None, rowalt=None):
         """faults: {site: [(count or None, err or None), ...]} -- the first `count` invocations of that native call
         end with err (None = succeed), then the next segment applies; count None = all remaining invocations.
         site/err = the single-fault shorthand {site: [(None, err)]}."""
@@ -119,6 +129,7 @@ class World:
         if site is not None and err is not None:
             self.faults[site] = [(None, err)]
         self.ncalls = {}
+        self.rowalt = dict(rowalt or {})
         self.records = records or {}
         self.notty = notty
         self.fired = 0
@@ -236,6 +247,40 @@ class Layer:
         v = self.world.records.get(fname)
         return v[0] if v else BASE[fname]
 
+    def row(self, fname):
+        """Base row of a row-native, slot world.rowalt[fname] replaced by its alternative."""
+        p, b = self.plat, BASE[fname]
+        if p == "windows":
+            est, lis = self.const("MIB_TCP_STATE_ESTAB"), self.const("MIB_TCP_STATE_LISTEN")
+        else:
+            est, lis = self.const("TCPS_ESTABLISHED"), self.const("TCPS_LISTEN")
+        rows = {
+            "proc_cmdline": (["arg%d" % b, "arg%d" % (b + 1)], ["alt0", "alt1"]),
+            "proc_args": (["arg%d" % b, "arg%d" % (b + 1)], ["alt0", "alt1"]),
+            "proc_name_and_args": (["nm%d" % b, "arg%d arg%d" % (b + 10, b + 11)], ["other", "x y"]),
+            "proc_environ": (["K%d" % b, "V%d" % (b + 1)], ["ALTK", "altv"]),
+            "net_connections": ([b, 2, 1, ("10.0.0.1", b + 3), ("10.0.0.2", b + 4), est, b + 6],
+                                [b + 50, 10, 2, ("::1", 1), ("::2", 2), lis, b + 56]),
+            "proc_net_connections": ([b, 2, 1, ("10.0.0.1", b + 3), ("10.0.0.2", b + 4), est],
+                                     [b + 50, 10, 2, ("::1", 1), ("::2", 2), lis]),
+            "proc_memory_maps": {
+                "sunos": ([b, b + 1, "p%d" % (b + 2), "n%d" % (b + 3), b + 4, b + 5, b + 6],
+                          [b + 50, b + 51, "q", "zz", b + 54, b + 55, b + 56]),
+                "windows": ([b, "p%d" % (b + 1), "\\Device\\HarddiskVolume1\\m%d" % (b + 2), b + 3],
+                            [b + 50, "q", "\\Device\\HarddiskVolume1\\zz", b + 53]),
+            }.get(p, ([b + i for i in range(7)], [b + 50 + i for i in range(7)])),
+        }
+        base, alt = rows[fname]
+        base = list(base)
+        i = self.world.rowalt.get(fname)
+        if i is not None:
+            base[i] = alt[i]
+        return base
+
+    def _environ(self):
+        k, v = self.row("proc_environ")
+        return "%s=%s\0\0" % (k, v) if self.plat in ("macos", "windows") else {k: v}
+
     def _threads(self):
         v = self.world.records.get("proc_threads") or [BASE["proc_threads"] + i for i in range(6)]
         return [tuple(v[0:3])]
@@ -255,60 +300,57 @@ class Layer:
         f["pids"] = lambda: [1] + ([L.world.pid] if L.world.listed() else [])
         f["proc_name"] = lambda *a: "nativename"
         f["proc_threads"] = lambda *a: L._threads()
-        f["proc_environ"] = lambda *a: "A=1\0B=2\0\0" if p in ("macos", "windows") else {"A": "1"}
+        f["proc_environ"] = lambda *a: L._environ()
         if p in ("freebsd", "openbsd", "netbsd"):
-            f["proc_cmdline"] = lambda *a: ["a", "b"]
+            f["proc_cmdline"] = lambda *a: L.row("proc_cmdline")
             f["proc_cwd"] = lambda *a: "/cwd"
             f["proc_num_fds"] = lambda *a: L.scal("proc_num_fds")
             f["proc_open_files"] = lambda *a: L._open_files()
-            f["net_connections"] = lambda *a: []
+            f["net_connections"] = lambda *a: [tuple(L.row("net_connections"))]
             f["per_cpu_times"] = lambda *a: [(1, 2, 3, 4, 5), (1, 2, 3, 4, 5)]
             if p in ("freebsd", "netbsd"):
                 f["proc_num_threads"] = lambda *a: L.scal("proc_num_threads")
             if p == "freebsd":
-                f["proc_net_connections"] = lambda *a: []
+                f["proc_net_connections"] = lambda *a: [tuple(L.row("proc_net_connections"))]
                 f["proc_exe"] = lambda *a: "/bin/exe"
                 f["proc_cpu_affinity_get"] = lambda *a: [0, 1]
                 f["proc_cpu_affinity_set"] = lambda *a: None
-                f["proc_memory_maps"] = lambda *a: []
+                f["proc_memory_maps"] = lambda *a: [tuple(L.row("proc_memory_maps"))]
                 f["proc_getrlimit"] = lambda *a: (BASE["proc_getrlimit"], BASE["proc_getrlimit"] + 1)
                 f["proc_setrlimit"] = lambda *a: None
         elif p == "macos":
             f["proc_exe"] = lambda *a: "/bin/exe"
-            f["proc_cmdline"] = lambda *a: ["a", "b"]
+            f["proc_cmdline"] = lambda *a: L.row("proc_cmdline")
             f["proc_cwd"] = lambda *a: "/cwd"
             f["proc_memory_uss"] = lambda *a: L.scal("proc_memory_uss")
             f["proc_open_files"] = lambda *a: L._open_files()
-            f["proc_net_connections"] = lambda *a: []
+            f["proc_net_connections"] = lambda *a: [tuple(L.row("proc_net_connections"))]
             f["proc_num_fds"] = lambda *a: L.scal("proc_num_fds")
         elif p == "sunos":
-            f["proc_name_and_args"] = lambda *a: ("nativename", "a b")
-            f["proc_environ"] = lambda *a: {"A": "1"}
+            f["proc_name_and_args"] = lambda *a: tuple(L.row("proc_name_and_args"))
             f["proc_cpu_num"] = lambda *a: L.scal("proc_cpu_num")
-            f["query_process_thread"] = lambda pid, tid, path: (BASE["query_process_thread"] + 10 * tid,
-                                                                BASE["query_process_thread"] + 10 * tid + 1)
-            f["net_connections"] = lambda *a: []
-            f["proc_memory_maps"] = lambda *a: [(4096, 8192, "r-x", "a.out", 10, 11, 12)]
+            f["query_process_thread"] = lambda pid, tid, path: (BASE["query_process_thread"], BASE["query_process_thread"] + 1)
+            f["net_connections"] = lambda *a: [tuple(L.row("net_connections"))]
+            f["proc_memory_maps"] = lambda *a: [tuple(L.row("proc_memory_maps"))]
         elif p == "aix":
             f["proc_name"] = lambda *a: "nativename\0\0"
-            f["proc_args"] = lambda *a: ["a", "b"]
-            f["proc_environ"] = lambda *a: {"A": "1"}
-            f["net_connections"] = lambda *a: []
+            f["proc_args"] = lambda *a: L.row("proc_args")
+            f["net_connections"] = lambda *a: [tuple(L.row("net_connections"))]
         elif p == "windows":
             f["pid_exists"] = lambda pid: L.world.listed()
             f["ppid_map"] = lambda: ({L.world.pid: L.scal("ppid_map")} if L.world.listed() else {})
             f["proc_exe"] = lambda *a: "C:\\bin\\exe.exe"
-            f["proc_cmdline"] = lambda *a, **k: ["a", "b"]
+            f["proc_cmdline"] = lambda *a, **k: L.row("proc_cmdline")
             f["proc_memory_uss"] = lambda *a: L.scal("proc_memory_uss")
             f["getpagesize"] = lambda: 4096
-            f["proc_memory_maps"] = lambda *a: []
+            f["proc_memory_maps"] = lambda *a: [tuple(L.row("proc_memory_maps"))]
             f["proc_kill"] = lambda *a: None
             f["proc_wait"] = lambda *a: 0
             f["proc_username"] = lambda *a: ("DOM", "usr")
             f["proc_suspend_or_resume"] = lambda *a: None
             f["proc_cwd"] = lambda *a: "C:\\cwd\\"
             f["proc_open_files"] = lambda *a: L._open_files()
-            f["net_connections"] = lambda *a: []
+            f["net_connections"] = lambda *a: [tuple(L.row("net_connections"))]
             f["proc_priority_get"] = lambda *a: L.const("NORMAL_PRIORITY_CLASS")
             f["proc_priority_set"] = lambda *a: None
             f["proc_io_priority_get"] = lambda *a: 2
@@ -351,13 +393,13 @@ class Layer:
                 return getattr(_os, n)
 
             def readlink(self, p, *a, **k):
-                return L.native("os.readlink", lambda *x: "/target", (p,), {})
+                return L.native("os.readlink", lambda *x: "/f%d" % BASE["os.readlink"], (p,), {})
 
             def listdir(self, p=".", *a):
                 if p in ("/proc", b"/proc"):             # pids() of _pssunos / _psaix
                     ls = ["1"] + ([str(L.world.pid)] if L.world.listed() else []) + ["self", "net"]
                     return [x.encode() for x in ls] if isinstance(p, bytes) else ls
-                return L.native("os.listdir", lambda *x: ["1", "2"], (p,), {})
+                return L.native("os.listdir", lambda *x: [str(BASE["os.listdir"])], (p,), {})
 
             def waitpid(self, pid, flags):               # _psposix.wait_pid (timeout=0 -> WNOHANG)
                 def real(pid, flags):
@@ -483,10 +525,11 @@ class Layer:
         return {"nice_set": (10,), "cpu_affinity_set": ([0],), "rlimit": (1,), "net_connections": ("inet",),
                 "ionice_set": (2, 0), "send_signal": (signal.SIGTERM,), "wait": (0,)}.get(meth, ())
 
-    def run(self, meth, pid=7, state="alive", site=None, err=None, records=None, notty=False, args=None, faults=None):
+    def run(self, meth, pid=7, state="alive", site=None, err=None, records=None, notty=False, args=None, faults=None,
+            rowalt=None):
         """Returns (kind, payload): ('val', value) | ('exc', exception object); world holds calls/fired."""
         mod = self.mod
-        self.world.reset(pid, state, site, err, records, notty, faults)
+        self.world.reset(pid, state, site, err, records, notty, faults, rowalt)
         if hasattr(mod, "_pid_0_exists"):
             mod._pid_0_exists.cache_clear()
         if hasattr(mod, "convert_dos_path"):
